@@ -12,5 +12,9 @@ CONSTANTS
   StrongThroughLog = TRUE
   SignalConfig = TRUE
   SignalBarrier = FALSE
+  MaxSnaps = 0
+  SnapAtApplied = TRUE
+  InstallReplacesDb = TRUE
+  SignalRestore = TRUE
 SYMMETRY Sym
 INVARIANTS NoStuckRead
